@@ -426,18 +426,6 @@ func delAllArgsStable(args []argsKV, key string) []argsKV {
 	return args
 }
 
-func delAllArgs(args []argsKV, key string) []argsKV {
-	n := len(args)
-	for i := 0; i < n; i++ {
-		if key == string(args[i].key) {
-			args[i], args[n-1] = args[n-1], args[i]
-			n--
-			i--
-		}
-	}
-	return args[:n]
-}
-
 func setArgBytes(h []argsKV, key, value []byte, noValue bool) []argsKV {
 	return setArg(h, b2s(key), b2s(value), noValue)
 }
